@@ -9,6 +9,7 @@ import PhyVerif.Driver.C17
 import PhyVerif.Driver.C02
 import PhyVerif.Driver.C03
 import PhyVerif.Driver.C06
+import PhyVerif.Driver.C11
 open Lean PhyVerif.Driver
 
 def dispatch (j : Json) : R Json := do
@@ -25,6 +26,8 @@ def dispatch (j : Json) : R Json := do
   | "C02" => runC02 op j
   | "C03" => runC03 op j
   | "C06" => runC06 op j
+  | "C11" => runC11 op j
+  | "C12" => runC12 op j
   | _ => .error s!"unknown property {p}"
 
 def handle (line : String) : String :=
